@@ -18,9 +18,11 @@ Definition ex_view : view := [
 Definition ex_annot : annot :=
   mkAnnot "1.0.0rc30" "2026-01-02 03:04:05.678901" ["reqs/in.txt"; "-"]
           ["--index-url https://idx.example/simple"; "--find-links ../wheels"] [("A.b", "0"); ("foo-bar", "1")].
-Definition ex_opts (multi hashes urls annotate : bool) : opts :=
-  mkOpts multi hashes urls (if annotate then Some ex_annot else None)
+Definition ex_opts_f (fmt : option bool) (hashes urls annotate : bool) : opts :=
+  mkOpts fmt hashes urls (if annotate then Some ex_annot else None)
          ["--index-url https://idx.example/simple"] ["--find-links ../wheels"].
+
+Definition ex_opts (multi hashes urls annotate : bool) : opts := ex_opts_f (Some multi) hashes urls annotate.
 
 (* the side conditions of the multi-line theorem hold of a rich view, in all eight option sets *)
 Example wf_multi_example :
@@ -32,6 +34,14 @@ Example wf_single_example :
   forallb (fun h => forallb (fun a => wf_single (ex_opts false h false a) ex_view) [true; false]) [true; false] = true.
 Proof. vm_compute. reflexivity. Qed.
 
+(* ... and with the format left to the tool (multiline = None), in all eight option sets *)
+Example wf_auto_example :
+  forallb (fun h => forallb (fun u => forallb (fun a => wf_auto (ex_opts_f None h u a) ex_view) [true; false]) [true; false]) [true; false] = true.
+Proof. vm_compute. reflexivity. Qed.
+Example roundtrip_default_example :
+  load (write (ex_opts_f None false true true) ex_view) = Ok (erase (ex_opts_f None false true true) ex_view).
+Proof. vm_compute. reflexivity. Qed.
+
 (* the round trip itself, computed *)
 Example roundtrip_example :
   load (write (ex_opts true true true true) ex_view) = Ok ex_view.
@@ -40,7 +50,7 @@ Proof. vm_compute. reflexivity. Qed.
 (* ---- refuted: one-line output with URLs is rejected by the loader (the view itself is fine:
    it satisfies the multi-line side conditions) *)
 Lemma single_urls_refuted :
-  exists o v, wf_multi (mkOpts true (o_hashes o) (o_urls o) (o_annot o) (o_index o) (o_links o)) v = true /\
+  exists o v, wf_multi (mkOpts (Some true) (o_hashes o) (o_urls o) (o_annot o) (o_index o) (o_links o)) v = true /\
               o_multi o = false /\ o_urls o = true /\
               load (write o v) = Err ENotAnnotated.
 Proof. exists (ex_opts false true true false), ex_view. vm_compute. repeat split; reflexivity. Qed.
@@ -49,12 +59,12 @@ Proof. exists (ex_opts false true true false), ex_view. vm_compute. repeat split
    multi-line branch and cuts four characters off - the edge comes back with another requirer *)
 Definition via_view : view := [mkPin "c" "2.0" None None [mkVia "viaduct" [] "" []]].
 Lemma single_via_prefix_refuted :
-  exists o v, wf_multi (mkOpts true (o_hashes o) (o_urls o) (o_annot o) (o_index o) (o_links o)) v = true /\
+  exists o v, wf_multi (mkOpts (Some true) (o_hashes o) (o_urls o) (o_annot o) (o_index o) (o_links o)) v = true /\
               o_multi o = false /\ o_urls o = false /\
               load (write o v) = Ok [mkPin "c" "2.0" None None [mkVia "uct" [] "" []]] /\
               edges [mkPin "c" "2.0" None None [mkVia "uct" [] "" []]] <> edges v.
 Proof.
-  exists (mkOpts false false false None [] []), via_view. vm_compute. repeat split; try reflexivity. discriminate.
+  exists (mkOpts (Some false) false false None [] []), via_view. vm_compute. repeat split; try reflexivity. discriminate.
 Qed.
 
 (* ---- refuted: a project whose version is the loader's placeholder "0+missing" (a valid PEP 440
@@ -63,4 +73,4 @@ Definition missing_view : view := [mkPin "a" "0+missing" None None [mkVia "reqs.
 Lemma placeholder_version_refuted :
   exists o v, o_multi o = true /\ pin_version ("==" ++ "0+missing") = Ok "0+missing" /\
               load_entries (write o v) = Ok v /\ load (write o v) = Ok [].
-Proof. exists (mkOpts true false false None [] []), missing_view. vm_compute. repeat split; reflexivity. Qed.
+Proof. exists (mkOpts (Some true) false false None [] []), missing_view. vm_compute. repeat split; reflexivity. Qed.
